@@ -69,14 +69,9 @@ def positive_evidence(p, a):
     """why amount term a is > 0 on path p: a guard fact, a validated request size, or a named invariant; None if nothing"""
     from money import Dom
     dom = Dom(p, use=('path',))
-    for f, _, _ in p.facts:
-        if f[0] == 'val' and f[1][0] == 'lt':
-            if f[2] is True and f[1][1] == I(0) and dom.eq(f[1][2], a): return 'guard: 0 < amount'
-            if f[2] is False and f[1][2] == I(1) and dom.eq(f[1][1], a): return 'validated: amount >= 1'
-        if f[0] == 'nval' and 0 in f[2] and dom.eq(f[1], a): return 'guard: amount != 0'
-        if f[0] == 'val' and f[2] is False and f[1][0] == 'eq' and I(0) in f[1][1:]:
-            other = f[1][2] if f[1][1] == I(0) else f[1][1]
-            if dom.eq(other, a): return 'guard: amount != 0'
+    from money import numericish
+    for y, sg in p.signs():
+        if sg == 'pos' and isinstance(y, tuple) and numericish(y) and dom.eq(y, a): return 'guard: amount > 0'
     pa = dom.poly(a)
     def stored_field(t, ns, path):
         x = t
@@ -88,8 +83,8 @@ def positive_evidence(p, a):
     if a[0] == 'f' and a[2] == 'amount' and a[1][0] == 'v' and a[1][3] == 'converted_base': return 'I2 + I1: approver amount == size > 0'
     # price x positive size
     def is_size(t):
-        if t[0] == 'msg' and t[2] in ('size',): return p.holds(LT(t, I(1)), False) is not None
-        if t[0] == 'v' and t[2] == 'Some' and t[1][0] == 'msg': return p.holds(LT(t, I(1)), False) is not None
+        if t[0] == 'msg' and t[2] in ('size',): return p.pos(('pos', t)) is not None
+        if t[0] == 'v' and t[2] == 'Some' and t[1][0] == 'msg': return p.pos(('pos', t)) is not None
         if t[0] == 'sub' and stored_field(t[1], 'bid', ['base', 'amount']) and stored_field(t[2], 'bid', ['accumulated_base']): return True   # I3
         return False
     if a[0] == 'mul' and a[1][0] == 'dec' and is_size(a[2]): return 'I6/L-pos: positive price x positive size, whole by the path guard'
@@ -137,7 +132,7 @@ def run(eng, tier):
                                p.variant, K(D), [K(d) for d in cands]), where=call_site, detail=p.describe(),
                            sample={'rule': 'mechanism', 'request': p.variant, 'mech': 'marker', 'denom': K(D), 'marker_fact_for': [K(d) for d in cands if eqv.same(D, d)][:1]})
                     # zero amount refused before the message is built
-                    z = p.holds(EQ(I(0), a), False)
+                    z = p.pos(('pos', a))
                     eng.ob(z is not None and (m['fpos'] is None or z < m['fpos']), PROP, 'marker-amount-nonzero', '%s:%s' % (p.variant, K(a)),
                            '%s: marker transfer of %s built without the amount == 0 refusal' % (p.variant, K(a)), where=call_site)
                 else:
